@@ -64,9 +64,23 @@ Run(bs, i, st) ==
     ELSE [st EXCEPT !.bad = "bad-byte"]
 
 Lvl(c) == (c * 100 + 127) \div 255        \* round(c / 2.55)
+\* large images (palette built from a sample of the pixels): only the control items, extracted by the harness
+BigVerdict(r) ==
+  LET defs == { N(r.defs[i]) : i \in 1..Len(r.defs) }
+      defined == { d[1] : d \in defs }
+  IN IF r.panic # "" THEN "panic"
+     ELSE IF ~r.framed THEN "bad-introducer"
+     ELSE IF Len(r.raster) # 4 \/ r.raster[3] # r.w \/ r.raster[4] # (r.h \div 6) * 6 THEN "declared size differs from (width, 6*floor(h/6))"
+     ELSE IF \E d \in defs : Len(d) # 5 \/ d[2] # 2 \/ d[3] > 100 \/ d[4] > 100 \/ d[5] > 100 THEN "bad-colour"
+     ELSE IF \E n \in defined : n > 255 THEN "colour register beyond 255 defined"
+     ELSE IF Cardinality(defined) > 256 THEN "more than 256 colour registers defined"
+     ELSE IF \E i \in 1..Len(r.selected) : r.selected[i] \notin defined THEN "undefined-register"
+     ELSE IF ~r.same THEN "a second draw of the same image emitted different bytes"
+     ELSE "ok"
 Verdict(r) ==
   LET bs == N(r.bytes) IN
-  IF r.panic # "" THEN "panic"
+  IF r.t = "big" THEN BigVerdict(r)
+  ELSE IF r.panic # "" THEN "panic"
   ELSE IF Len(bs) < 5 \/ SubSeq(bs, 1, 3) # <<27, 80, 113>> THEN "bad-introducer"
   ELSE LET st == Run(bs, 4, St0)
            H6 == (r.h \div 6) * 6
